@@ -1581,6 +1581,32 @@ fn main() {
             big.push((format!("big-rand-{}", i), specs));
         }
     }
+    // more random overflowing rule sets in the quick tier too (the harness is cheap)
+    if !thorough {
+        for i in 0..8 {
+            let mult = [5usize, 6, 8, 10, 14, 18][i % 6];
+            let t = k * mult / 4;
+            let s = match i % 5 {
+                0 => gen_pair_glyph_spec(&mut rng, t, &pool, true, i % 2 == 0),
+                1 => gen_pair_glyph_spec(&mut rng, t, &pool, false, true),
+                2 => gen_pair_class_spec(&mut rng, t, &pool, false),
+                3 => gen_m2b_spec(&mut rng, t, &pool),
+                _ => gen_direct_pp1(&mut rng, t),
+            };
+            big.push((format!("big-quick-{}", i), vec![s]));
+        }
+    }
+    // boundary: ONE pair set larger than 64 KiB behind a format-2 coverage (split point 0)
+    if args.iter().any(|a| a == "huge") {
+        let mut pairs = vec![];
+        for j in 0..17000u16 {
+            pairs.push((1u16, 100 + j, mk_val(0, j as i64, &pool), Val::default()));
+        }
+        for g in 2..=4u16 {
+            pairs.push((g, 100, mk_val(0, g as i64, &pool), Val::default()));
+        }
+        big.push(("huge-single-pairset".into(), vec![Spec::Pair { pairs, classes: vec![] }]));
+    }
     for (key, specs) in big {
         cases.push(mk(key, specs, &mut rng));
     }
